@@ -52,6 +52,81 @@ fn multi_error_inputs() -> Vec<(String, Files)> {
     v
 }
 
+/// every declaration of a blob / enum with up to three members whose names come from a two-letter alphabet (so
+/// repeated names occur) and whose types come from a menu with unknown generics and unknown types; every blob
+/// literal with up to three fields over known, unknown and repeated names; unresolved names near several
+/// candidates. Each has zero, one or several independent errors.
+fn declaration_family(thorough: bool) -> Vec<(String, Files)> {
+    let mut v: Vec<(String, Files)> = Vec::new();
+    let hdr = "print: fn *X -> void : external\n";
+    let start = "start :: fn do\n    print(1)\nend\n";
+    let types: &[&str] = &["int", "*X", "*Y", "Nope", "fn *K, *V -> *W", "(*X, Nope)", "str"];
+    let max = 3usize;
+    for len in 1..=max {
+        let per = 2 * types.len();
+        for mut k in 0..per.pow(len as u32) {
+            let mut fields = Vec::new();
+            let mut variants = Vec::new();
+            for _ in 0..len {
+                let c = k % per;
+                k /= per;
+                let (n, t) = (c % 2, types[c / 2]);
+                fields.push(format!("{}: {}", ["a", "b"][n], t));
+                variants.push(format!("    {} {},\n", ["P", "Q"][n], t));
+            }
+            let id = fields.join(", ");
+            // full enumeration at length <= 2; at length 3 the quick tier keeps the shapes with a repeated name
+            let repeated = { let names: Vec<&str> = fields.iter().map(|f| &f[..1]).collect(); names.iter().any(|n| names.iter().filter(|m| *m == n).count() > 1) };
+            if len == 3 && !thorough && !(repeated && fields.iter().all(|f| !f.contains("fn ") && !f.contains('('))) {
+                continue;
+            }
+            v.push((format!("decl blob {{ {} }}", id), one_file(&format!("{}A :: blob {{ {} }}\n{}", hdr, id, start))));
+            v.push((format!("decl blob(*X) {{ {} }} used", id), one_file(&format!("{}A :: blob(*X) {{ {} }}\nq :: A {{ a: 1, b: 2 }}\n{}", hdr, id, start))));
+            v.push((format!("decl enum {{ {} }}", id), one_file(&format!("{}A :: enum\n{}end\nq :: A.P 1\n{}", hdr, variants.concat(), start))));
+        }
+    }
+    let names = ["a", "b", "x", "y"];
+    for len in 1..=3usize {
+        for mut k in 0..names.len().pow(len as u32) {
+            let mut fs = Vec::new();
+            for i in 0..len {
+                fs.push(format!("{}: {}", names[k % names.len()], ["1", "\"s\"", "nope"][i % 3]));
+                k /= names.len();
+            }
+            let lit = fs.join(", ");
+            v.push((format!("literal A {{ {} }}", lit), one_file(&format!("{}A :: blob {{ a: int, b: int }}\nq :: A {{ {} }}\n{}", hdr, lit, start))));
+        }
+    }
+    // unresolved names with several equally near candidates (globals, locals, both)
+    let cands = ["scale_x", "scale_y", "scale_w", "scal_z"];
+    for mask in 0u32..(1 << (2 * cands.len())) {
+        // two bits per candidate: 0 absent, 1 global, 2 local, 3 both
+        let mut globals = String::new();
+        let mut locals = String::new();
+        for (i, c) in cands.iter().enumerate() {
+            let m = (mask >> (2 * i)) & 3;
+            if m & 1 != 0 {
+                globals.push_str(&format!("{} :: {}\n", c, i));
+            }
+            if m & 2 != 0 {
+                locals.push_str(&format!("    {} := {}\n", c, i));
+            }
+        }
+        v.push((format!("near-names mask={:08b}", mask), one_file(&format!("{}{}f :: fn do\n{}    print(scale_z)\nend\n{}", hdr, globals, locals, start))));
+    }
+    // repeated parameter names, repeated type variables, repeated case arms, repeated imports
+    for (id, body) in [
+        ("params a, a", "f :: fn a: int, a: str do\n    print(a)\nend\n"),
+        ("typevars *T, *T", "A :: blob(*T, *T) { a: *T }\n"),
+        ("enum typevars *T, *T", "A :: enum(*T, *T)\n    P *T,\nend\n"),
+        ("case arm twice", "E :: enum\n    P int,\n    Q,\nend\nf :: fn do\n    case E.Q do\n        P x -> print(x)\n        P y -> print(y)\n        Q -> print(2)\n    end\nend\n"),
+        ("two unknown externals", "g: Nope1 : external\nh: fn *A -> Nope2 : external\n"),
+    ] {
+        v.push((format!("repeat {}", id), one_file(&format!("{}{}{}", hdr, body, start))));
+    }
+    v
+}
+
 fn valid_inputs() -> Vec<(String, Files)> {
     let mut v = Vec::new();
     let mut p = crate::selftest::sample();
@@ -142,6 +217,11 @@ pub fn run(run: &mut Run) {
     for (id, f) in valid_inputs() {
         inputs.push((id, f, true));
     }
+    let n_before_family = inputs.len();
+    for (id, f) in declaration_family(thorough) {
+        inputs.push((id, f, false));
+    }
+    st.count("declaration_family_inputs", (inputs.len() - n_before_family) as u64);
     // program families: every third program of the short statement families and recursion templates
     for (k, (fam, p)) in crate::stmtfam::all_programs_len(1).into_iter().enumerate() {
         if k % 3 == 0 {
@@ -240,9 +320,10 @@ pub fn run(run: &mut Run) {
     let scratch = crate::report::verif_root().join("scratch").join(format!("c16-{}", std::process::id()));
     let _ = std::fs::remove_dir_all(&scratch);
     let reps = if thorough { 6 } else { 3 };
-    for (id, files, _valid) in &inputs {
+    let indexed: Vec<(usize, &(String, Files, bool))> = inputs.iter().enumerate().collect();
+    let accs = crate::pool::par_items(&indexed, 1, |_| Stats::new(), |acc, _, (idx, (id, files, _valid))| {
         // materialise under a root that keeps the /p/ layout
-        let root = scratch.join(id);
+        let root = scratch.join(format!("i{}", idx));
         for (p, text) in files {
             let dest = root.join(p.trim_start_matches('/'));
             std::fs::create_dir_all(dest.parent().unwrap()).unwrap();
@@ -261,21 +342,22 @@ pub fn run(run: &mut Run) {
                 }
                 c.env("CLICOLOR_FORCE", "0");
                 let o = c.output().expect("run sylt");
-                st.evaluations += 1;
+                acc.evaluations += 1;
                 // colour escape codes are presentation, not content: strip them before comparing
                 let text = strip_ansi(&String::from_utf8_lossy(&o.stdout));
                 outs.push((format!("run{} {}", r, envname), format!("exit={:?}\n{}", o.status.code(), text)));
             }
         }
+        let _ = std::fs::remove_dir_all(&root);
         let same = outs.iter().all(|o| o.1 == outs[0].1);
-        st.outcome(if same { "process:identical" } else { "process:DIFFERS" });
+        acc.outcome(if same { "process:identical" } else { "process:DIFFERS" });
         if !same {
             let other = outs.iter().find(|o| o.1 != outs[0].1).unwrap();
             let mut fm = serde_json::Map::new();
             for (k, v) in files {
                 fm.insert(k.clone(), json!(v));
             }
-            st.fail(Failure {
+            acc.fail(Failure {
                 sig: "process-result-differs".into(),
                 preds: vec![format!("input:{}", id)],
                 detail: format!("input {}: the sylt binary printed different results\n--- {}\n{}\n--- {}\n{}", id, outs[0].0, outs[0].1, other.0, other.1),
@@ -283,7 +365,8 @@ pub fn run(run: &mut Run) {
                 size: 500,
             });
         }
-    }
+    });
+    st.merge(Stats::merge_all(accs));
     let _ = std::fs::remove_dir_all(&scratch);
     st.states = st.evaluations;
     run.stats = st;
